@@ -17,6 +17,7 @@ code in an isolated worker by the correspondence run; it is not in the model.
 import SecsModel.Model.Parser
 import SecsModel.Proofs.Lexer
 import SecsModel.Proofs.NoPanic
+import SecsModel.Proofs.ParserErrs
 import SecsModel.Generated.Facts
 namespace Secs.C06
 open Secs Secs.Sml Secs.Lex
@@ -51,6 +52,21 @@ theorem all_returned (ual : List Nat) (input : Bytes) (msgs : List Msg) (warns :
       have : s.errs.reverse = [] := h2
       simp at this
       simp [this] at he
+
+/-- **if no error is reported, every message in the input is returned**: the message loop did not
+stop early — it ran until it saw the end-of-input token, so nothing after the last returned message
+was left unparsed (a sub-parser that gives up always reports why: `parseMessage_none_err`) -/
+theorem no_silent_stop (ual : List Nat) (input : Bytes) (msgs : List Msg) (warns : List Diag)
+    (h : parse ual input = .done msgs [] warns) :
+    ∃ s, parseLoop (((lexAll ual input).filter (fun t => t.kind != .comment)).length + 1)
+      { toks := (lexAll ual input).filter (fun t => t.kind != .comment) } [] = some (msgs, s) ∧
+      s.errs = [] ∧ s.peek.kind = .eof := by
+  obtain ⟨s, hs, he⟩ := all_returned ual input msgs warns h
+  exact ⟨s, hs, he, parseLoop_clean_at_eof _ _ _ _ _ (by simp) hs he⟩
+
+/-- a message that is not built is reported: the loop never drops a message silently -/
+theorem failed_message_is_reported (s : PS) (h : (parseMessage s).1 = none) : (parseMessage s).2.errs ≠ [] :=
+  parseMessage_none_err s h
 
 /-- the lexer emits at most one token per input byte, plus the final one -/
 theorem lex_bounded (ual : List Nat) (fuel : Nat) (m : Mode) (p : Pos) : (lexFuel ual fuel m p).length ≤ fuel := by
